@@ -83,7 +83,7 @@ func verifObserveRest(st *state.State) []string {
 				tlog = append(tlog, l)
 			}
 		}
-		out = append(out, fmt.Sprintf("task %s kind=%s sum=%s status=%v waited=%s clean=%v waits=%v halts=%v lanes=%v log=%v at=%s data=%v prog=%s/%d/%d spawn=%s ready=%s doing=%v undoing=%v chg=%s", t.ID(), t.Kind(), t.Summary(), t.Status(), ws, t.IsClean(), w, h, t.Lanes(), tlog, t.AtTime().UTC().Format(time.RFC3339Nano), d1, l, done, total, t.SpawnTime().UTC().Format(time.RFC3339Nano), t.ReadyTime().UTC().Format(time.RFC3339Nano), t.DoingTime(), t.UndoingTime(), t.Change().ID()))
+		out = append(out, fmt.Sprintf("task %s kind=%s sum=%s status=%v waited=%s clean=%v waits=%v halts=%v lanes=%v \x00log=%v\x00 at=%s data=%v prog=%s/%d/%d spawn=%s ready=%s doing=%v undoing=%v chg=%s", t.ID(), t.Kind(), t.Summary(), t.Status(), ws, t.IsClean(), w, h, t.Lanes(), tlog, t.AtTime().UTC().Format(time.RFC3339Nano), d1, l, done, total, t.SpawnTime().UTC().Format(time.RFC3339Nano), t.ReadyTime().UTC().Format(time.RFC3339Nano), t.DoingTime(), t.UndoingTime(), t.Change().ID()))
 	}
 	out = append(out, fmt.Sprintf("taskcount %d", st.TaskCount()))
 	var ns []string
@@ -268,6 +268,42 @@ func verifRunC05(c *verifsim.Ctx) {
 		obs2 := verifObserveRest(st2)
 		obs2 = append(obs2, verifObserveChanges(st2)...)
 		st2.Unlock()
+		// Change.Status() logs "detected cyclic dependencies" on some task
+		// configurations only direct status setting produces; ReadState itself
+		// calls it (finishUnmarshal), and task logs are capped, so for such
+		// changes reading the state evicts older log lines. Logs of tasks in
+		// those changes are left out of the comparison.
+		noisy := map[string]bool{}
+		for _, stx := range []*state.State{st, st2} {
+			stx.Lock()
+			for _, t := range stx.Tasks() {
+				for _, l := range t.Log() {
+					if strings.Contains(l, "detected cyclic dependencies") {
+						noisy[t.Change().ID()] = true
+					}
+				}
+			}
+			stx.Unlock()
+		}
+		mask := func(obs []string) []string {
+			out := make([]string, len(obs))
+			for i, l := range obs {
+				a := strings.Index(l, "\x00log=")
+				b := strings.LastIndex(l, "\x00")
+				if a >= 0 && b > a {
+					chg := l[strings.LastIndex(l, "chg=")+4:]
+					if noisy[chg] {
+						l = l[:a] + "log=<not compared>" + l[b+1:]
+						c.Count("probe:logs-not-compared-for-cyclic-false-positive")
+					} else {
+						l = l[:a] + l[a+1:b] + l[b+1:]
+					}
+				}
+				out[i] = l
+			}
+			return out
+		}
+		obs1, obs2 = mask(obs1), mask(obs2)
 		if len(obs1) != len(obs2) {
 			c.Violate("C05/reload-differs", "observation length differs %d vs %d", len(obs1), len(obs2))
 		} else {
